@@ -44,7 +44,10 @@ from molli.chem import (
     ConformerEnsemble,
     Element,
     Molecule,
+    Promolecule,
+    Connectivity,
     Structure,
+    Substructure,
 )
 
 LEVEL = "model_checking"
@@ -142,38 +145,66 @@ def same_float(a, b):
     return (a != a and b != b) or a == b
 
 
+class UnderTestDeviation(Exception):
+    """the code under test (not the harness) prevented a case from being set up: reported as a violation"""
+
+    def __init__(self, symptom, detail):
+        super().__init__(f"{symptom}: {detail}")
+        self.symptom, self.detail = symptom, detail
+
+
+def raised_in_library(e: BaseException) -> bool:
+    """does the innermost python frame of the traceback belong to molli (and not to the harness)?"""
+    tb, last = e.__traceback__, None
+    while tb is not None:
+        last, tb = tb.tb_frame.f_code.co_filename, tb.tb_next
+    return last is not None and (os.sep + "molli" + os.sep) in last and (os.sep + "mc" + os.sep + "props") not in last
+
+
+def _same_arr(a, b):
+    return a.shape == b.shape and bool(np.all((a == b) | (np.isnan(a) & np.isnan(b))))
+
+
 def build(spec):
+    """-> (object, reference spec).  The reference of the write -> read direction is what the OBJECT holds:
+    normally exactly the spec; if a constructor stored other numbers (e.g. another dtype) the object's own
+    coordinates / charges become the reference (never a harness error: the harness is not what deviates)."""
     kind = spec["kind"]
-    atoms = [Atom(Element(z), label=lab, atype=AtomType(t), geom=AtomGeom(g)) for z, lab, t, g in spec["atoms"]]
-    n = len(atoms)
-    f0 = spec["frames"][0]
-    xyz0 = np.array(f0["xyz"], dtype=float).reshape(n, 3)
-    if kind == "S":
-        obj = Structure(atoms, name=spec["name"], coords=xyz0)
-    else:
-        obj = Molecule(atoms, name=spec["name"], coords=xyz0)
-        obj.atomic_charges = np.array(f0["q"], dtype=float).reshape(n)
-    for i, j, bt in spec["bonds"]:
-        obj.append_bond(Bond(atoms[i], atoms[j], btype=BondType(bt)))
-    if kind == "E":
-        k = len(spec["frames"])
-        xyz = np.array([f["xyz"] for f in spec["frames"]], dtype=float).reshape(k, n, 3)
-        q = np.array([f["q"] for f in spec["frames"]], dtype=float).reshape(k, n)
-        obj = ConformerEnsemble(obj, n_conformers=k, coords=xyz, atomic_charges=q)
-    # the harness must have built what the spec says (otherwise the harness is broken, or the
-    # constructors are - which is C05/C06's business, not a C07 verdict)
-    ok = obj.name == spec["name"] and obj.n_atoms == n and obj.n_bonds == len(spec["bonds"])
-    if ok:
-        co = np.asarray(obj.coords, dtype=float)
-        ex = np.array([f["xyz"] for f in spec["frames"]], dtype=float).reshape((len(spec["frames"]), n, 3))
-        if kind != "E":
-            ex = ex[0]
-        ok = co.shape == ex.shape and bool(np.all((co == ex) | (np.isnan(co) & np.isnan(ex))))
-    if ok:
-        ok = [int(a.element) for a in obj.atoms] == [a[0] for a in spec["atoms"]] and [a.label for a in obj.atoms] == [a[1] for a in spec["atoms"]]
-    if not ok:
-        raise HarnessError(f"could not build the structure of spec {spec!r}")
-    return obj
+    n, k = len(spec["atoms"]), len(spec["frames"])
+    try:
+        atoms = [Atom(Element(z), label=lab, atype=AtomType(t), geom=AtomGeom(g)) for z, lab, t, g in spec["atoms"]]
+        f0 = spec["frames"][0]
+        xyz0 = np.array(f0["xyz"], dtype=float).reshape(n, 3)
+        if kind == "S":
+            obj = Structure(atoms, name=spec["name"], coords=xyz0)
+        else:
+            obj = Molecule(atoms, name=spec["name"], coords=xyz0)
+            obj.atomic_charges = np.array(f0["q"], dtype=float).reshape(n)
+        for i, j, bt in spec["bonds"]:
+            obj.append_bond(Bond(atoms[i], atoms[j], btype=BondType(bt)))
+        if kind == "E":
+            xyz = np.array([f["xyz"] for f in spec["frames"]], dtype=float).reshape(k, n, 3)
+            q = np.array([f["q"] for f in spec["frames"]], dtype=float).reshape(k, n)
+            obj = ConformerEnsemble(obj, n_conformers=k, coords=xyz, atomic_charges=q)
+        co = np.array(obj.coords, dtype=float)
+        qq = None if kind == "S" else np.array(obj.atomic_charges, dtype=float)
+        shape_ok = obj.name == spec["name"] and obj.n_atoms == n and obj.n_bonds == len(spec["bonds"])
+        shape_ok = shape_ok and [int(a.element) for a in obj.atoms] == [a[0] for a in spec["atoms"]] and [a.label for a in obj.atoms] == [a[1] for a in spec["atoms"]]
+    except Exception as e:
+        raise UnderTestDeviation(f"constructor-raised-{exc(e)}", f"{KINDNAME[kind]} could not be constructed from valid parts: {exc(e)}: {e}")
+    ex = np.array([f["xyz"] for f in spec["frames"]], dtype=float).reshape((k, n, 3))
+    eq = np.array([f["q"] for f in spec["frames"]], dtype=float).reshape((k, n))
+    if kind != "E":
+        ex, eq = ex[0], eq[0]
+    if not shape_ok or co.shape != ex.shape or (qq is not None and qq.shape != eq.shape):
+        raise UnderTestDeviation("constructed-object-differs-from-its-parts", f"{KINDNAME[kind]} built from {n} atoms / {len(spec['bonds'])} bonds / name {spec['name']!r} does not hold them")
+    ref = spec
+    if not _same_arr(co, ex) or (qq is not None and not _same_arr(qq, eq)):
+        cf = co if kind == "E" else co[None]
+        qf = eq if qq is None else qq
+        qf = qf if kind == "E" else qf[None]
+        ref = dict(spec, frames=[{"xyz": cf[i].tolist(), "q": qf[i].tolist()} for i in range(k)])
+    return obj, ref
 
 
 # =================================================================================================
@@ -454,7 +485,74 @@ def reader_universe(sym, k):
     return [r for r in READERS if not is_first_reader(r)]
 
 
-def emit_matrix(ctx, spec, cells, detail, writers_ok):
+# ---- "history before writing": other containers / views over the molecule's own Atom objects -------------
+LIST_CONTAINERS = {"Promolecule": Promolecule, "Connectivity": Connectivity, "Structure": Structure, "Molecule": Molecule}
+
+
+def history_tag(history):
+    if not history:
+        return ""
+    tags = set()
+    for op in history:
+        if op.get("second"):
+            tags.add(f"written-object-is-a-second-container({'original-alive' if op['keep'] else 'original-dropped'})")
+        else:
+            fam = "list-container" if op["c"] in LIST_CONTAINERS else ("substructure-view" if op["c"] == "Substructure" else "ensemble-conformer-view")
+            tags.add(f"{fam}({'alive' if op['keep'] else 'dropped'})")
+    return "after[" + "+".join(sorted(tags)) + "]|"
+
+
+def prepare(spec, history):
+    """-> (object to write, reference spec, objects kept alive)"""
+    obj, ref = build(spec)
+    keep = []
+    for op in history or ():
+        sel = op["sel"]
+        try:
+            if op.get("second"):
+                # the written object is a SECOND container over (some of) the first one's atom objects
+                src_atoms = [obj.atoms[i] for i in sel]
+                fr = ref["frames"][0]
+                xyz = np.array([fr["xyz"][i] for i in sel], dtype=float).reshape(len(sel), 3)
+                second = LIST_CONTAINERS[op["c"]](src_atoms, name=spec["name"] + "-2", coords=xyz)
+                if op["c"] == "Molecule":
+                    second.atomic_charges = [fr["q"][i] for i in sel]
+                pos = {i: p for p, i in enumerate(sel)}
+                bonds = [(pos[i], pos[j], bt) for i, j, bt in spec["bonds"] if i in pos and j in pos]
+                for i, j, bt in bonds:
+                    second.append_bond(Bond(second.atoms[i], second.atoms[j], btype=BondType(bt)))
+                if op["keep"]:
+                    keep.append(obj)
+                ref2 = mkspec("M" if op["c"] == "Molecule" else "S", spec["name"] + "-2", [spec["atoms"][i] for i in sel], [{"xyz": [fr["xyz"][i] for i in sel], "q": [fr["q"][i] for i in sel]}], bonds)
+                # as in build(): the reference is what the written object holds
+                co2 = np.array(second.coords, dtype=float)
+                q2 = np.array(second.atomic_charges, dtype=float) if op["c"] == "Molecule" else np.array(ref2["frames"][0]["q"], dtype=float)
+                if co2.shape != (len(sel), 3) or q2.shape != (len(sel),) or second.n_atoms != len(sel) or second.n_bonds != len(bonds):
+                    raise UnderTestDeviation("constructed-object-differs-from-its-parts", f"{op['c']} over atoms {sel} with {len(bonds)} bonds does not hold them")
+                if not _same_arr(co2, np.array(ref2["frames"][0]["xyz"], dtype=float).reshape(len(sel), 3)) or not _same_arr(q2, np.array(ref2["frames"][0]["q"], dtype=float)):
+                    ref2 = dict(ref2, frames=[{"xyz": co2.tolist(), "q": q2.tolist()}])
+                obj, ref = second, ref2
+                continue
+            if op["c"] in LIST_CONTAINERS:
+                other = LIST_CONTAINERS[op["c"]]([obj.atoms[i] for i in sel])  # copy_atoms=False: the atom OBJECTS are shared
+            elif op["c"] == "Substructure":
+                other = Substructure(obj, list(sel))
+            elif op["c"] == "EnsembleConformer":
+                ens = obj if isinstance(obj, ConformerEnsemble) else ConformerEnsemble(obj, n_conformers=1)
+                other = (ens, ens[0])
+            else:
+                raise HarnessError(f"unknown history op {op!r}")
+        except (HarnessError, UnderTestDeviation):
+            raise
+        except Exception as e:
+            raise UnderTestDeviation(f"history-op-raised-{exc(e)}", f"{op['c']} over atoms {sel} of the structure raised {exc(e)}: {e}")
+        if op["keep"]:
+            keep.append(other)
+        del other
+    return obj, ref, keep
+
+
+def emit_matrix(ctx, spec, cells, detail, writers_ok, case=None, tag=""):
     """cells: {symptom: set((writer, reader))}; "w=*" = every writer entry that produced a text"""
     kn = KINDNAME[spec["kind"]]
     for sym in sorted(cells):
@@ -463,16 +561,16 @@ def emit_matrix(ctx, spec, cells, detail, writers_ok):
         rs = sorted({r for _, r in cs})
         groups = [(ws, rs)] if cs == set(itertools.product(ws, rs)) else [([w], [r]) for w, r in sorted(cs)]
         for gw, gr in groups:
-            sig = f"rt|{kn}|{sym}|w={_desc(gw, writers_ok)}|r={_desc(gr, reader_universe(sym, len(spec['frames'])))}"
+            sig = f"rt|{kn}|{tag}{sym}|w={_desc(gw, writers_ok)}|r={_desc(gr, reader_universe(sym, len(spec['frames'])))}"
             ctx.violation(
                 sig,
-                f"{kn} written by {gw[0]} and read by {gr[0]}: {detail.get((sym, gw[0], gr[0]), detail.get(sym, sym))}",
-                {"layer": "S", "spec": spec},
-                repro=repro_spec(spec, gw[0], gr[0]),
+                f"{kn} {tag}written by {gw[0]} and read by {gr[0]}: {detail.get((sym, gw[0], gr[0]), detail.get(sym, sym))}",
+                case or {"layer": "S", "spec": spec},
+                repro=repro_spec((case or {}).get("spec", spec), gw[0], gr[0], (case or {}).get("history")),
             )
 
 
-def repro_spec(spec, w, r):
+def repro_spec(spec, w, r, history=None):
     kind = spec["kind"]
     lines = [
         "import io, numpy as np, molli as ml",
@@ -488,6 +586,20 @@ def repro_spec(spec, w, r):
     lines.append(f"for i, j, t in {spec['bonds']!r}: m.append_bond(Bond(atoms[i], atoms[j], btype=BondType(t)))")
     if kind == "E":
         lines.append("m = ml.ConformerEnsemble(m, n_conformers=len(frames), coords=np.array(frames, dtype=float).reshape(len(frames), len(atoms), 3), atomic_charges=charges)")
+    for op in history or ():
+        sel = op["sel"]
+        if op.get("second"):
+            lines.append(f"orig = m; m = ml.{op['c']}([orig.atoms[i] for i in {sel}], name='second', coords=np.array([frames[0][i] for i in {sel}], dtype=float).reshape({len(sel)}, 3))")
+            lines.append(f"pos = {{i: p for p, i in enumerate({sel})}}")
+            lines.append(f"for i, j, t in {spec['bonds']!r}:\n    if i in pos and j in pos: m.append_bond(Bond(m.atoms[pos[i]], m.atoms[pos[j]], btype=BondType(t)))")
+            if not op["keep"]:
+                lines.append("del orig")
+        elif op["c"] == "Substructure":
+            lines.append(f"h = m.substructure({sel})" + ("" if op["keep"] else "; del h"))
+        elif op["c"] == "EnsembleConformer":
+            lines.append("h = ml.ConformerEnsemble(m, n_conformers=1); c0 = h[0]" + ("" if op["keep"] else "; del h, c0"))
+        else:
+            lines.append(f"h{'' if not op['keep'] else id(op) % 97} = ml.{op['c']}([m.atoms[i] for i in {sel}])  # shares the atom objects" + ("" if op["keep"] else "; del h"))
     if w == "dumps_mol2":
         lines.append("text = m.dumps_mol2()")
     else:
@@ -517,20 +629,13 @@ def is_nontrivial(spec):
     return bool(spec["bonds"]) or len(spec["frames"]) > 1
 
 
-def check_spec(ctx, spec):
+def _evaluate(ctx, obj, spec, tmp, tmpw):
+    """the written object through every writer x every reader + the fixed-point step
+    -> (cells {symptom: {(writer, reader)}}, detail, texts {text: [writers]}, wfail {symptom: [(writer, detail)]})"""
     kind = spec["kind"]
-    tmp = Path(ctx.scratch) / f"c07-{os.getpid()}.mol2"
-    tmpw = Path(ctx.scratch) / f"c07-{os.getpid()}-w.mol2"
-    obj = build(spec)
-    ctx.count(evaluations=1, states=1, traces=1)
-    key = digest(spec)
-    if is_nontrivial(spec):
-        ctx.nontrivial(key)
     cells: dict = {}
     detail: dict = {}
     texts: dict = {}
-    nviol = 0
-    # ---- writers
     wfail: dict = {}
     for w in WRITERS:
         ctx.count(transitions=1)
@@ -543,16 +648,6 @@ def check_spec(ctx, spec):
             wfail.setdefault("did-not-return-text", []).append((w, type(t).__name__))
             continue
         texts.setdefault(t, []).append(w)
-    for sym in sorted(wfail):
-        ws = [w for w, _ in wfail[sym]]
-        nviol += 1
-        ctx.violation(
-            f"write|{KINDNAME[kind]}|{sym}|w={_desc(ws, WRITERS)}",
-            f"{KINDNAME[kind]}.{ws[0]} on a valid structure: {wfail[sym][0][1]}",
-            {"layer": "S", "spec": spec},
-            repro=repro_spec(spec, ws[0], KINDNAME[kind] + ".loads_mol2"),
-        )
-    # ---- readers on every distinct text
     for text in sorted(texts):
         ws = texts[text]
         tmp.write_text(text, encoding="utf-8", newline="")
@@ -563,7 +658,12 @@ def check_spec(ctx, spec):
             except Exception as e:
                 syms = [(f"read-raised-{exc(e)}", f"{exc(e)}: {e}")]
             else:
-                syms = observe(spec, r, res)
+                try:
+                    syms = observe(spec, r, res)
+                except Exception as e:
+                    if not raised_in_library(e):
+                        raise
+                    syms = [(f"result-unusable-{exc(e)}", f"{exc(e)}: {e}")]
             for s, d in syms:
                 for w in ws:
                     cells.setdefault(s, set()).add((w, r))
@@ -582,9 +682,56 @@ def check_spec(ctx, spec):
                 s = f"not-a-fixed-point:{cl}"
                 cells.setdefault(s, set()).add((w, primary_r))
                 detail.setdefault(s, f"second write differs from the first ({cl})")
+    return cells, detail, texts, wfail
+
+
+def check_spec(ctx, spec, history=None):
+    tmp = Path(ctx.scratch) / f"c07-{os.getpid()}.mol2"
+    tmpw = Path(ctx.scratch) / f"c07-{os.getpid()}-w.mol2"
+    case = {"layer": "S", "spec": spec}
+    if history:
+        case["history"] = history
+    tag = history_tag(history)
+    ctx.count(evaluations=1, states=1, traces=1)
+    key = digest((spec, history))
+    if is_nontrivial(spec):
+        ctx.nontrivial(key)
+    try:
+        obj, espec, _keep_alive = prepare(spec, history)
+    except UnderTestDeviation as e:
+        ctx.violation(f"setup|{KINDNAME[spec['kind']]}|{tag}{e.symptom}", e.detail, case)
+        ctx.outcome(("setup", e.symptom))
+        return {}
+    kind = espec["kind"]
+    cells, detail, texts, wfail = _evaluate(ctx, obj, espec, tmp, tmpw)
+    base_syms: set = set()
+    if history and (cells or wfail):
+        # which symptoms belong to the HISTORY?  the same written structure, freshly built without any history,
+        # is evaluated too; what it shows as well is reported without the history tag (as the S layers do)
+        try:
+            obj0, espec0 = build(espec)
+            c0, _d0, _t0, w0 = _evaluate(ctx, obj0, espec0, tmp, tmpw)
+            base_syms = set(c0) | {"write:" + k for k in w0}
+        except UnderTestDeviation:
+            pass
+    for sym in sorted(wfail):
+        ws = [w for w, _ in wfail[sym]]
+        t = "" if ("write:" + sym) in base_syms else tag
+        ctx.violation(
+            f"write|{KINDNAME[kind]}|{t}{sym}|w={_desc(ws, WRITERS)}",
+            f"{KINDNAME[kind]}.{ws[0]} on a valid structure {t}: {wfail[sym][0][1]}",
+            case,
+            repro=repro_spec(spec, ws[0], KINDNAME[kind] + ".loads_mol2", history),
+        )
     ctx.outcome((digest(sorted(texts)), tuple(sorted(cells)), tuple(sorted(wfail))))
     if cells:
-        emit_matrix(ctx, spec, cells, detail, sorted(w for ws in texts.values() for w in ws))
+        wok = sorted(w for ws in texts.values() for w in ws)
+        plain = {k: v for k, v in cells.items() if k in base_syms or not tag}
+        tagged = {k: v for k, v in cells.items() if k not in plain}
+        if plain:
+            emit_matrix(ctx, espec, plain, detail, wok, case, "")
+        if tagged:
+            emit_matrix(ctx, espec, tagged, detail, wok, case, tag)
     clear_bond_cache()
     return texts
 
@@ -840,7 +987,11 @@ def check_tb(ctx, kind, trs, seed, bonded=False):
     spec = tb_spec(kind, trs, seed, bonded)
     case = {"layer": "TB", "kind": kind, "triples": [list(t) for t in trs], "bonded": bonded}
     ctx.count(evaluations=1, states=1, traces=1)
-    obj = build(spec)
+    try:
+        obj, _ = build(spec)
+    except UnderTestDeviation as e:
+        ctx.violation(f"setup|{KINDNAME[kind]}|{e.symptom}", e.detail, case)
+        return
     tmp = Path(ctx.scratch) / f"c07-{os.getpid()}.mol2"
     w = "dump_mol2[StringIO]"  # (Structure.dumps_mol2 is judged in the S layers)
     rname = KINDNAME[kind] + ".loads_mol2"
@@ -992,8 +1143,9 @@ def mm_text(blocks, source, tmp):
         parts = []
         for b in blocks:
             spec = mkspec(kind, b["name"], b["atoms"], [{"xyz": b["xyz"], "q": b["q"]}], b["bonds"])
-            parts.append(do_write(build(spec), "dumps_mol2" if kind == "M" else "dump_mol2[StringIO]", tmp))
-            exp.append(spec)
+            obj, ref = build(spec)
+            parts.append(do_write(obj, "dumps_mol2" if kind == "M" else "dump_mol2[StringIO]", tmp))
+            exp.append(ref)
         return "".join(parts), exp
     out = []
     for bi, b in enumerate(blocks):
@@ -1211,9 +1363,56 @@ def gen_SH(seed, thorough):
 
 
 # =================================================================================================
+# HW : history before writing - other containers / views created over the structure's own atom objects
+# =================================================================================================
+def gen_HW(seed, thorough):
+    """(spec, history): 2 base structures x kinds x every history of depth 1 over (container x selection x
+    kept alive / dropped), depth 2 over the atom-sharing list containers (thorough: depth 2 over everything),
+    plus 'the written object is the second container'"""
+    tr = triples(seed + 4, [v for v in CVALS if v == v])
+    S, D, AR, T = BT["Single"], BT["Double"], BT["Aromatic"], BT["Triple"]
+    bases = [
+        ([(6, "C1", REG, UNKG), (7, None, REG, UNKG), (8, "O3", REG, UNKG)], [(0, 1, S), (2, 1, D), (0, 2, AR)], [[0, 1, 2], [2, 1, 0], [1, 2, 0], [2, 0], [1], [0, 2]]),
+        ([(1, "H1", REG, UNKG), (6, "C2", REG, UNKG), (1, None, REG, UNKG), (8, "O4", REG, UNKG)], [(1, 0, S), (1, 2, S), (3, 1, D)], [[0, 1, 2, 3], [3, 2, 1, 0], [1, 3], [0, 2], [1], [2, 3, 0, 1]]),
+    ]
+    for bi, (atoms, bonds, sels) in enumerate(bases):
+        n = len(atoms)
+        xyz = [tr[(bi + 2 * a) % len(tr)] for a in range(n)]
+        q = [CHARGES[(a + 1 + seed) % len(CHARGES)] for a in range(n)]
+        sub2 = (sels[1], sels[3], sels[4])  # the same selections for every seed; the seed only rotates the order
+        sels = rot(sels, seed)
+        ops1 = [{"c": c, "sel": sel, "keep": keep} for c in ("Promolecule", "Connectivity", "Structure", "Molecule", "Substructure") for sel in sels for keep in (True, False)]
+        ops1 += [{"c": "EnsembleConformer", "sel": [], "keep": keep} for keep in (True, False)]
+        if thorough:
+            ops2 = ops1
+        else:
+            ops2 = [{"c": c, "sel": sel, "keep": keep} for c in ("Promolecule", "Molecule") for sel in sub2 for keep in (True, False)]
+        for kind in ("M", "S", "E"):
+            frames = [{"xyz": xyz, "q": q}]
+            if kind == "E":
+                frames.append({"xyz": xyz[1:] + xyz[:1], "q": q[1:] + q[:1]})
+            spec = mkspec(kind, f"hw{bi}", atoms, frames, bonds)
+            usable = lambda op: not (kind == "E" and op["c"] == "Substructure")
+            for op in ops1:
+                if usable(op):
+                    yield spec, [op]
+            for a in ops2:
+                for b in ops2:
+                    if usable(a) and usable(b):
+                        yield spec, [a, b]
+            if kind != "E":
+                for c in ("Molecule", "Structure"):
+                    for sel in sels:
+                        for keep in (True, False):
+                            yield spec, [{"c": c, "sel": sel, "keep": keep, "second": True}]
+                            # ... and after yet another container has listed the same atoms
+                            yield spec, [{"c": "Promolecule", "sel": sub2[0], "keep": True}, {"c": c, "sel": sel, "keep": keep, "second": True}]
+
+
+# =================================================================================================
 # partitioned drivers
 # =================================================================================================
-def _part(ctx, part):
+def _part_inner(ctx, part):
     layer, i, nparts = part
     seed, thorough = ctx.seed, ctx.thorough
     if layer in S_LAYERS:
@@ -1224,6 +1423,13 @@ def _part(ctx, part):
             ctx.add_note(f"cases_{layer}")
             if idx == i == 0 or (idx == i == 1):
                 ctx.sample({"layer": layer, "spec": spec})
+        return
+    if layer == "HW":
+        for idx, (spec, hist) in enumerate(gen_HW(seed, thorough)):
+            if idx % nparts != i:
+                continue
+            check_spec(ctx, spec, hist)
+            ctx.add_note("cases_HW")
         return
     if layer == "SH":
         for idx, blocks in enumerate(gen_SH(seed, thorough)):
@@ -1267,6 +1473,23 @@ def _part(ctx, part):
     raise HarnessError(f"unknown layer {layer}")
 
 
+def _part(ctx, part):
+    """a check may exit 2 only for its own bugs: an exception that escapes from the library through a path
+    the harness did not anticipate is a finding about the library, not a harness error"""
+    try:
+        _part_inner(ctx, part)
+    except HarnessError:
+        raise
+    except UnderTestDeviation as e:
+        ctx.violation(f"setup|{part[0]}|{e.symptom}", e.detail, None)
+    except Exception as e:
+        if not raised_in_library(e):
+            raise
+        import traceback
+
+        ctx.violation(f"unexpected-exception-in-the-library|{part[0]}|{exc(e)}", f"{exc(e)}: {e} :: " + traceback.format_exc()[-600:], None)
+
+
 def token_representatives():
     """first triple (in enum order) that emits each distinct token - measured on the tree"""
     reps = {}
@@ -1300,6 +1523,10 @@ def run(ctx):
         "fixed point = the text of the first write is reproduced byte for byte by writing what the same class read from it",
         "loads_mol2/load_mol2 of a multi-molecule text return the first molecule (documented behaviour); loads_all/ConformerEnsemble return all, in order",
         "an ensemble with 0 conformers has no mol2 text and is out of scope",
+        "layer HW (history before writing): creating other containers (Promolecule/Connectivity/Structure/Molecule over a list of the structure's own Atom "
+        "objects, copy_atoms=False), a Substructure view or an ensemble + Conformer view, alive or dropped, does not change the structure: its mol2 text "
+        "must still read back as the structure (its own atom order is the reference); likewise when the written object is such a second container",
+        "the write -> read reference is what the constructed OBJECT holds (normally exactly the requested numbers; never a harness error if a constructor stores other numbers)",
         "layer SH (multi-molecule texts of DIFFERENT molecules): texts are concatenated molli dumps of each molecule and harness-formatted texts "
         "(also with NO_CHARGES and USER_CHARGES blocks mixed; a NO_CHARGES block carries 0.0 in its charge column and must give zero charges); every "
         "molecule must come back with its own name, elements, labels, coordinates, charges and bond list",
@@ -1327,8 +1554,8 @@ def run(ctx):
     ctx.note("property_text_says_triples", "119 x 22 x 17; the tree under test has %d x %d x %d" % (nE, nT, nG))
     np_ = 16 if thorough else 8
     parts = []
-    for layer in ("TA", "TB", "BL", "S0", "TC", "S4", "SH", "S2", "S1", "S3"):
-        n = 1 if layer in ("S0",) else np_ * (4 if layer in ("S1", "S3", "S2") else 1)
+    for layer in ("TA", "TB", "BL", "S0", "TC", "S4", "SH", "HW", "S2", "S1", "S3"):
+        n = 1 if layer in ("S0",) else np_ * (4 if layer in ("S1", "S3", "S2") or (thorough and layer == "HW") else 1)
         parts += [(layer, i, n) for i in range(n)]
     if thorough:
         parts += [("TB2", i, np_ * 8) for i in range(np_ * 8)]
@@ -1343,7 +1570,7 @@ def run(ctx):
 def replay(ctx, case):
     layer = case["layer"]
     if layer == "S":
-        check_spec(ctx, normspec(case["spec"]))
+        check_spec(ctx, normspec(case["spec"]), case.get("history"))
     elif layer == "SH":
         check_multimol(
             ctx,
